@@ -69,11 +69,18 @@ def dag(pol_small, pol_n4, seed, th):
 def adv(seed, th, cancel=False):
     """Tape-driven adversarial scheduler (vf/adv.py): every legal decision sequence
     with at most `bound` departures from 'place it now'."""
+    modes = None
+    if cancel:
+        # with --drop_skipped_tasks a task the scheduler leaves unplaced (also one it had
+        # SCHEDULED before) is dropped: cancelled with everything that depends on it
+        modes = {"plain": {}, "retract": {"retract": True},
+                 "rtg+retract": {"retract": True, "rtg": True},
+                 "retract+drop": {"retract": True, "drop": True}}
     out = [("S-adv", W.s_adv(seed, max_n=2, bound=2 if not th else 3, cap=4000,
-                             cancel=cancel)),
+                             cancel=cancel, modes=modes)),
            ("S-adv3", W.s_adv(seed, max_n=3, bound=1 if not th else 2, cap=4000,
-                              cancel=cancel, releases=("two@1",) if not th
-                              else ("one", "two@1")))]
+                              cancel=cancel, modes=modes,
+                              releases=("two@1",) if not th else ("one", "two@1")))]
     if th:
         out.append(("S-adv-la", W.s_adv(
             seed, max_n=3, bound=2, cap=4000, cancel=cancel,
@@ -233,8 +240,17 @@ def slices(prop, tier, seed):
              or k == "ILP" or (th and k in ("ILP+la", "ILP+drop"))}, seed,
             k_max=3 if th else 2)))
         S.append(("S-cw", W.s_cw(seed, k_max=3 if th else 2, full=th)))
+        S.append(("S-cw-hetero", W.s_cw_hetero(seed, k_max=3, full=th)))
     elif prop == "C19":
         S.append(("S-closed", W.s_closed(g, seed)))
+        # deadline bounds from the command line must reach every instance, also the ones
+        # generated when an earlier instance finished
+        S.append(("S-closed-min", W.s_closed({"EDF": gp["EDF"]}, seed,
+                                             flags_extra={"min_deadline": 7},
+                                             tag_extra="/min7")))
+        S.append(("S-closed-max", W.s_closed({"EDF": gp["EDF"]}, seed,
+                                             flags_extra={"max_deadline": 1},
+                                             tag_extra="/max1")))
         S.append(("S-closed-plan", W.s_closed({k: pp[k] for k in ("ILP", "TSG+drop",
                                                                    "ILP+drop")}, seed)))
     elif prop == "C18":
